@@ -116,6 +116,7 @@ func genConcurrent(ctx *Ctx, emit func(Case)) {
 		wg.Wait()
 		runtime.GOMAXPROCS(old)
 	}
+	mismatches = append(mismatches, stressConcurrent(ctx.Quick)...)
 	for i, l := range lines {
 		i := i
 		var direct func() string
@@ -132,7 +133,7 @@ func genConcurrent(ctx *Ctx, emit func(Case)) {
 			cmp = resCmp
 		}
 		emit(Case{Stream: "conc.workload", Line: l, GoOut: solo[i], Cmp: cmp, Fallback: fallbackFor(l), Branch: strings.Fields(l)[0], Direct: direct,
-			Sample: map[string]interface{}{"op": strings.Fields(l)[0], "goroutines_x_gomaxprocs": "8..24 x {1,2,4,NumCPU}", "solo_answer": trunc(solo[i], 80)}})
+			Sample: map[string]interface{}{"op": strings.Fields(l)[0], "goroutines_x_gomaxprocs": "8..24 x {1,2,4,NumCPU}", "stress_round_trip_sets_run_concurrently": stressDone, "solo_answer": trunc(solo[i], 80)}})
 	}
 }
 
